@@ -81,3 +81,27 @@ theorem sortKey_of_perm_strict (l s : List α) (hp : l.Perm s)
 end keys
 
 end Pew.SortAgilent
+
+namespace Pew.SortAgilent
+variable {α : Type}
+
+/-- a permutation of a list that is strictly ascending for `le` (each later element is `le`-above
+and not `le`-below each earlier one) sorts to that list -/
+theorem mergeSort_eq_of_perm_strict (le : α → α → Bool)
+    (ht : ∀ a b c : α, le a b = true → le b c = true → le a c = true)
+    (htot : ∀ a b : α, (le a b || le b a) = true)
+    (l s : List α) (hp : l.Perm s)
+    (hs : s.Pairwise (fun a b => le a b = true ∧ le b a = false)) :
+    l.mergeSort le = s := by
+  apply mergeSort_eq_sorted_of_perm le ht htot l s hp (hs.imp (fun h => h.1))
+  intro a ha b hb h1 h2
+  by_contra hne
+  have : Std.Symm (fun x y : α => (le x y = true ∧ le y x = false) ∨ (le y x = true ∧ le x y = false)) :=
+    ⟨fun _ _ h => h.symm⟩
+  have := (hs.imp (fun {x y} (h : le x y = true ∧ le y x = false) =>
+    (Or.inl h : (le x y = true ∧ le y x = false) ∨ (le y x = true ∧ le x y = false)))).forall ha hb hne
+  rcases this with h | h
+  · rw [h2] at h; exact absurd h.2 (by simp)
+  · rw [h1] at h; exact absurd h.2 (by simp)
+
+end Pew.SortAgilent
